@@ -243,18 +243,25 @@ def main():
         default = rng.choice(["s", "ms", "s"])
         unit_ns = 10 ** E[default]
         K = rng.choice([2, 3])
+        # a third of the dense cases on the online monitor (the whole signal in one update()), if the formula is a past one
+        online = not (ops_of(phi) & FUT) and rng.random() < 0.5
         objs = []
         for k in range(K):
             written, styles = write_ast(rng, phi, unit_ns, default)
             o = ct_obj(phi, 1, vs, text="out = " + to_text(written, 1), written=written,
                        units={"def": default, "pnum": 1, "pden": 1, "punit": default}, unit=default, styles=styles,
-                       factory=rng.choice(["StlDenseTimeSpecification", "StlDenseTimeOfflineSpecification"]))
+                       factory=rng.choice(["StlDenseTimeSpecification", "StlDenseTimeOnlineSpecification" if online else "StlDenseTimeOfflineSpecification"]))
             objs.append(o)
         end = rng.choice([4, 6, 8])
         w = {v: gen_signal(rng, rng.choice([2, 3, 4, 5]), t0=0, end=end) for v in vs}
-        evs = [ev_parse(k + 1) for k in range(K)] + [ev_ct("evaluate", w, k + 1) for k in range(K)]
+        evs = [ev_parse(k + 1) for k in range(K)] + [ev_ct("update" if online else "evaluate", w, k + 1) for k in range(K)]
         rels = [{"rel": "same_fn", "x": 1, "y": k + 1} for k in range(1, K)]
-        dcases.append(case(objs, evs, rels, kind="dense", bad=False, timeout=8))
+        kw = {}
+        if rng.random() < 0.4:
+            # first a twin of object 1 under another default unit (bounds written with a unit mean the same duration, but another
+            # number of default units: seeds r10 C04-1, C05-1 - class-level memos of converted bounds keyed without the default unit)
+            kw["intruder"] = {"unit": {"s": "ms", "ms": "s"}[default], "offline": not online}
+        dcases.append(case(objs, evs, rels, kind="dense", bad=False, timeout=8, **kw))
     dtr = runner.run_cases(dcases)
     dvs, dgen, ddist = core.validate("C08_dense", dtr, module="TraceCt")
     rep.add_traces(dtr, dvs, dgen, ddist, nontrivial_key=lambda c: str([o["text"] for o in c["objs"]]) + str(c["events"][-1]["w"]))
